@@ -27,7 +27,7 @@ pub fn codec_kind(codec: &str) -> Kind {
     }
 }
 
-/// data tags: "basis" (size 32k), "dense:<bytes>", "ones:<bytes>", "zero:<bytes>"
+/// data tags: "basis" (size 32k), "dense:<bytes>", "ones:<bytes>", "zero:<bytes>", "special:<bytes>"
 pub fn make_data(tag: &str, k: usize, seed: u64) -> (usize, Vec<Vec<u8>>) {
     if tag == "basis" {
         return data_basis(k);
@@ -39,6 +39,7 @@ pub fn make_data(tag: &str, k: usize, seed: u64) -> (usize, Vec<Vec<u8>>) {
         "dense2" => (bytes, data_dense(k, bytes, seed ^ 0xABCD_EF01)),
         "ones" => (bytes, data_ones(k, bytes)),
         "zero" => (bytes, vec![vec![0u8; bytes]; k]),
+        "special" => (bytes, data_special(k, bytes)),
         _ => panic!("data tag {tag}"),
     }
 }
